@@ -146,6 +146,12 @@ pub fn real_history<T: Nums + Evaluate>(m: &mut Mon, r: &mut Rng, positive: bool
         .map(|_| (0..T::LEN).map(|_| r.mixed(2.0)).collect())
         .collect();
     let pw: Piecewise<T> = pw_from(&ends, &coeffs);
+    real_history_on(m, r, &pw, allow_nan, maxlen);
+}
+
+/// history check on a given function with real pieces (also used for functions the library itself built)
+pub fn real_history_on<T: Nums + Evaluate>(m: &mut Mon, r: &mut Rng, pw: &Piecewise<T>, allow_nan: bool, maxlen: usize) {
+    let ends: Vec<f64> = pw_ends(pw);
     let pol = r.pick(&POLICIES);
     let len = r.usize(1, maxlen);
     let mut hist = gen_history(r, &ends, len, pol);
@@ -155,7 +161,7 @@ pub fn real_history<T: Nums + Evaluate>(m: &mut Mon, r: &mut Rng, positive: bool
             hist[k] = f64::NAN;
         }
     }
-    let mut h = hash_bits(5, pw_nums(&pw).iter().map(|e| e.to_bits()));
+    let mut h = hash_bits(5, pw_nums(pw).iter().map(|e| e.to_bits()));
     h = hash_bits(h, hist.iter().map(|e| e.to_bits()));
     m.case(mix2(h, T::LEN as u64));
     m.count(&format!("histories_real:{}", T::NAME));
@@ -337,6 +343,7 @@ pub const FLOORS: &[&str] = &[
     "exploration_fixpoints_reached",
     "exploration_states",
     "exploration_transitions",
+    "pipeline_functions",
 ];
 
 pub fn workload_a(a: &Args, m: &mut Mon, r: &mut Rng, nhist: u64, nan: bool, maxlen_thorough: usize) {
@@ -381,6 +388,9 @@ pub fn workload_a(a: &Args, m: &mut Mon, r: &mut Rng, nhist: u64, nan: bool, max
         tag_history(m, nan, &ends, &pw, &hist, "history");
         m.sample(&format!("history:{:?}", pol), 1, || json!({"ends": ends.iter().take(12).collect::<Vec<_>>(), "n_segments": ends.len(),
             "history": hist.iter().take(12).collect::<Vec<_>>(), "history_len": hist.len()}));
+        if k % 16 == 5 {
+            pipeline(m, r, nan);
+        }
         if k % 3 == 0 {
             macro_rules! go {
                 ($t:ident) => {
@@ -402,6 +412,49 @@ pub fn workload_a(a: &Args, m: &mut Mon, r: &mut Rng, nhist: u64, nan: bool, max
                 7 => go!(Poly7),
                 8 => go!(Poly8),
                 _ => real_history::<IntOfLogPoly4>(m, r, true, nan, 64),
+            }
+        }
+    }
+}
+
+/// Functions the library itself produced (knots -> constrained_spline / linear -> derivative / integral / scale),
+/// queried through the evaluator with hostile histories: the realistic downstream composition.
+pub fn pipeline(m: &mut Mon, r: &mut Rng, nan: bool) {
+    let nk = r.usize(3, 30);
+    let mut x = r.uniform(-5.0, 5.0);
+    let knots: Vec<Knot> = (0..nk)
+        .map(|i| {
+            let k = Knot { x, y: if r.chance(0.5) { (i as f64 * 0.9).sin() } else { r.small_int(3) } };
+            x += if r.chance(0.1) { 0.0 } else { r.uniform(0.1, 2.0) };
+            k
+        })
+        .collect();
+    m.count("pipeline_functions");
+    match r.below(4) {
+        0 => {
+            // linear tolerates repeated abscissae (zero-width segments, duplicate ends)
+            if let Ok(pw) = guard(|| linear(&knots)) {
+                real_history_on(m, r, &pw, nan, 64);
+            }
+        }
+        1 => {
+            if let Ok(pw) = guard(|| linear(&knots).integral(Knot { x: knots[0].x, y: 0.0 })) {
+                real_history_on(m, r, &pw, nan, 64);
+            }
+        }
+        k => {
+            let mut ks = knots.clone();
+            for i in 1..ks.len() {
+                if !(ks[i].x > ks[i - 1].x) {
+                    ks[i].x = ks[i - 1].x + 0.5;
+                }
+            }
+            if k == 2 {
+                if let Ok(pw) = guard(|| constrained_spline(&ks) * 2.0) {
+                    real_history_on(m, r, &pw, nan, 64);
+                }
+            } else if let Ok(pw) = guard(|| constrained_spline(&ks).integral(Knot { x: ks[0].x, y: 1.0 }).derivative()) {
+                real_history_on(m, r, &pw, nan, 64);
             }
         }
     }
